@@ -181,8 +181,14 @@ class Ctx:
             self.outcomes_saturated = True
 
     def sample(self, case, every=0):
+        c = jsonable(case)
         if len(self.samples) < 3:
-            self.samples.append(jsonable(case))
+            self.samples.append(c)
+        else:
+            # keep the three longest seen in this shard
+            k = min(range(3), key=lambda i: len(json.dumps(self.samples[i])))
+            if len(json.dumps(c)) > len(json.dumps(self.samples[k])):
+                self.samples[k] = c
 
     def violation(self, clause, case, observed=None, expected=None, exc=None, message=None):
         site = innermost_corankco_frame(exc) if exc is not None else clause
@@ -348,8 +354,9 @@ def merge(results):
         tot['outcomes'] |= r['outcomes']
         tot['outcomes_saturated'] |= r['outcomes_saturated']
         tot['violations'].extend(r['violations'])
-        if len(tot['samples']) < 4:
-            tot['samples'].extend(r['samples'][:2])
+        tot['samples'].extend(r['samples'][:3])
+    # keep the few most informative (longest) samples, deterministic order
+    tot['samples'] = sorted(tot['samples'], key=lambda x: (-len(json.dumps(x, sort_keys=True)), json.dumps(x, sort_keys=True)))[:4]
     return tot
 
 
